@@ -62,6 +62,9 @@ fn read_with_04(bytes: &[u8], model: &Model, probes: &[Vec<u8>]) -> Result<(), S
         let mut c = reader.into_cursor().map_err(e)?;
         let mut i = 0usize;
         while let Some((k, v)) = c.move_on_next().map_err(e)? {
+            if i > model.len() + 8 {
+                return Err("0.4.7 reader: forward scan does not terminate".into());
+            }
             if i >= model.len() || model.entries[i].0 != k || model.entries[i].1 != v {
                 return Err(format!("0.4.7 reader: forward scan entry #{i} differs from the inserted entry"));
             }
